@@ -1191,6 +1191,13 @@ pub async fn gen_fill(sim: &mut Sim, rng: &mut Prng, stats: &mut Stats, name: &s
     put_digest(&mut out, &[]);
     put_stream(&mut out, &[], 16384, false);
     sim.deliver(0, &out);
+    // the same question from a peer whose digest names three members s has never heard of: s's own
+    // digest in the SYN-ACK grows by three entries, and the delta must shrink accordingly — the
+    // budget is what is left AFTER the digest that is actually sent
+    let strangers: Vec<(WId, u64, u64, u64)> = (0..3)
+        .map(|i| (wid_of(&mk_id(&format!("stranger-{}-{}", i, "z".repeat(30)), 0, 5900 + i as u16)), 1, 0, 0))
+        .collect();
+    sim.deliver(0, &syn_bytes("c", &strangers));
 }
 
 // ------------------------------------------------------------------------------------------
@@ -1393,6 +1400,20 @@ pub async fn gen_wire(sim: &mut Sim, rng: &mut Prng, stats: &mut Stats, name: &s
                 let bytes = ack_bytes(&ops, 16_384, false);
                 sim.decode_expect_ok(&bytes);
                 stats.bump("wire_larger_than_a_datagram");
+            }
+            if rng.chance(1, 4) {
+                // compressed blocks that do NOT shrink (a few dozen bytes of operations each: the zstd
+                // frame is longer than its content): valid streams all the same
+                let ops = vec![
+                    WOp::Node { id: rand_wid(rng, 0), gc: 0, from: 0 },
+                    WOp::Kv { key: b"k".to_vec(), value: high_entropy_string(rng, 20).into_bytes(), version: 1, status: 0 },
+                    WOp::Kv { key: b"l".to_vec(), value: high_entropy_string(rng, 40).into_bytes(), version: 2, status: 0 },
+                ];
+                let mut bytes = Vec::new();
+                put_header(&mut bytes, 2);
+                crate::util::put_stream_always_compressed(&mut bytes, &ops, *rng.pick(&[16_384usize, 48]));
+                sim.decode_expect_ok(&bytes);
+                stats.bump("wire_expanding_compressed_blocks");
             }
             if rng.chance(1, 3) {
                 // every cut inside the header, the message tag and the first length field
@@ -1731,6 +1752,27 @@ pub async fn gen_fd(sim: &mut Sim, rng: &mut Prng, stats: &mut Stats, name: &str
         }
     }
     sim.eval(0);
+    if !sim.dead_case && rng.chance(1, 4) {
+        // a member seen alive up to heartbeat 10 goes silent; relays keep mentioning it with
+        // heartbeat 0 (a peer that knows it only through a catch-up), 9 (a lagging peer) and 10 (an
+        // up-to-date one), over and over: none of these is evidence, and after more than
+        // phi_threshold * max(max_interval, initial_interval) it must be reported dead
+        stats.bump("fd_zero_stale_top_relays");
+        let z = wid_of(&mk_id("zr", 0, 6009));
+        let step = max_iv / 5;
+        for h in 1..=10u64 {
+            sim.deliver(0, &syn_bytes("c", &[(z.clone(), h, 0, 0)]));
+            sim.tick(step).await;
+        }
+        sim.eval(0);
+        for _ in 0..60 {
+            for h in [0u64, 9, 10] {
+                sim.deliver(0, &syn_bytes("c", &[(z.clone(), h, 0, 0)]));
+            }
+            sim.tick(step).await;
+            sim.eval(0);
+        }
+    }
 }
 
 // ------------------------------------------------------------------------------------------
@@ -1839,6 +1881,13 @@ pub async fn gen_listen(sim: &mut Sim, rng: &mut Prng, stats: &mut Stats, name: 
                     sim.calls(n);
                     stats.bump("resubscribe_after_drop");
                 }
+                // a deleted key made visible again by a TTL write of the EMPTY value (the tombstone's
+                // stored value is empty too): every matching subscription fires
+                let k2 = format!("{x}{y}{x}");
+                sim.set(n, &k2, "v");
+                sim.delete(n, &k2);
+                sim.set_with_ttl(n, &k2, "");
+                sim.calls(n);
             }
             95..=97 => {
                 // external catch-up on the peer: the fetched state repeats what n already holds
